@@ -2,6 +2,7 @@
 import os
 
 import common as C
+import optsdom
 import validout
 import c1113x
 
@@ -14,7 +15,8 @@ def build(ctx):
     ctx.log("translate", out)
     if not ok:
         ctx.diag.append("translator failed: " + out[-300:])
-    C.prove(ctx, ["Props/C11.v", "Props/C11Valid.v", "Props/C11General.v"], ["Oblig/C11Obl.v", "Oblig/ValidSegObl.v", "Oblig/C11GenObl.v"])
+    C.prove(ctx, ["Props/C11.v", "Props/C11Valid.v", "Props/C11General.v", "Props/C11Opts.v"],
+            ["Oblig/C11Obl.v", "Oblig/ValidSegObl.v", "Oblig/C11GenObl.v", "Oblig/OptSitesObl.v", "Oblig/C11OptsObl.v"])
     ok, out = C.build_harness()
     ctx.log("go build", out)
     if not ok:
@@ -81,11 +83,15 @@ def run(ctx):
     ctx.add_summary(c1113x.run(ctx, "seg"), "C11 general (gen files)")
     summ = oracle(ctx, ctx.scale(8000, 150000))
     ctx.add_summary(summ, "File.SegmentFile oracle")
+    optsdom.corr(ctx, "C11")
+    optsdom.run(ctx, "C11")
     if ctx.tier == "thorough":
         ctx.cov["forbidden_vernacular"] = C.forbidden_vernacular()
 
 
 def replay(path):
+    if optsdom.is_case(path):
+        return optsdom.replay(path)
     if c1113x.is_case(path):
         return c1113x.replay(path)
     ok, out = C.build_harness()
